@@ -73,6 +73,72 @@ class DRDateNew(ZoneMixin, Base):
         }
 
 
+class AfterZoneChange(ZoneMixin):
+    """the same operation after an EARLIER call made under a different zone with the same abbreviation (the process changed TZ,
+    as long-running programs and test suites do): what is recorded must be the offset in force now, not a remembered one"""
+
+    def earlier_call(self, c, target, cls):
+        a = c.a
+        a.z0 = c.int('z0', -48, 56)
+        a.t0 = c.int('t0', 0, T_MAX - 1)
+        c.assume(a.t0 + 900 * a.z0 < T_MAX)
+        if c.symbolic:
+            c.p.ghost['tz_quarters'] = a.z0
+        else:
+            import os
+            import time
+            os.environ['TZ'] = tz_string(a.z0)
+            time.tzset()
+        other = c.new(cls)
+        c.call(target, other, a.t0)
+        if not c.symbolic:
+            import os
+            import time
+            os.environ['TZ'] = tz_string(c._get('z', 0))
+            time.tzset()
+
+    def seeds(self):
+        out = []
+        for v in ZoneMixin.seeds(self)[::7]:
+            for z0 in (-20, 0, 32):
+                out.append(dict(v, z0=z0, t0=86400 * 365))
+        return out
+
+
+@contract
+class DRDateNewAfterZoneChange(AfterZoneChange, Base):
+    """C19/dr-date, history form: DirectoryRecordDate.new records the zone offset in force at the call, whatever zone an earlier
+    call ran under"""
+    target = DRD + '.new'
+
+    def setup(self, c):
+        self.earlier_call(c, DRD + '.new', DRD)
+        self.zone(c)
+        a = c.a
+        a.self = c.new(DRD)
+        return Call([a.t], self_obj=a.self)
+
+    def post(self, c, a, out):
+        return {'offset-is-the-zone-offset-now': a.self.gmtoffset == a.z, 'hour-is-local-now': a.self.hour == a.local.tm_hour}
+
+
+@contract
+class VDDateNewAfterZoneChange(AfterZoneChange, Base):
+    """C19/vd-date, history form (see DRDateNewAfterZoneChange)"""
+    target = VDD + '.new'
+
+    def setup(self, c):
+        self.earlier_call(c, VDD + '.new', VDD)
+        self.zone(c)
+        a = c.a
+        c.assume(a.t > 0)
+        a.self = c.new(VDD)
+        return Call([a.t], self_obj=a.self)
+
+    def post(self, c, a, out):
+        return {'offset-is-the-zone-offset-now': a.self.gmtoffset == a.z, 'hour-is-local-now': a.self.hour == a.local.tm_hour}
+
+
 @contract
 class DRDateNewTwice(Base):
     """new on an initialised object raises InternalError and changes nothing"""
